@@ -4,8 +4,19 @@ from __future__ import annotations
 
 def all_translators():
     from . import option_tr, key_tr, sort_tr, compare_tr, clean_tr, dispatch_tr
-    return [("GenOptions.v", option_tr), ("GenKey.v", key_tr), ("GenSort.v", sort_tr), ("GenCompare.v", compare_tr),
+    base = [("GenOptions.v", option_tr), ("GenKey.v", key_tr), ("GenSort.v", sort_tr), ("GenCompare.v", compare_tr),
             ("GenClean.v", clean_tr), ("GenDispatch.v", dispatch_tr)]
+    # any further harness/translators/<x>_tr.py that defines GEN_NAME and generate(repo, coq_dir) is picked up too
+    import importlib
+    import os
+    import pkgutil
+    have = {m.__name__.rsplit(".", 1)[-1] for _, m in base}
+    for info in sorted(pkgutil.iter_modules([os.path.dirname(__file__)]), key=lambda i: i.name):
+        if info.name.endswith("_tr") and info.name not in have:
+            mod = importlib.import_module(f"{__name__}.{info.name}")
+            if hasattr(mod, "generate") and hasattr(mod, "GEN_NAME"):
+                base.append((mod.GEN_NAME, mod))
+    return base
 
 
 def generate_all(repo, coq_dir, fallback=False):
